@@ -62,7 +62,9 @@ type cOut struct {
 	at   int    // bytes consumed by the reader when the callback fired
 }
 
-const aggBaseTs = 1000
+// timestamp of the first sub-message of an aggregate (only differences to it count): small, ten below 2^24 (the
+// later sub-messages need the extended byte of the sub-header), ten below 2^32 (they wrap)
+var aggBases = []uint32{1000, 1<<24 - 10, 1<<32 - 10}
 
 // msgPayload builds the payload of a message; for aggregates also returns the expected
 // sub-payloads.
@@ -75,7 +77,7 @@ func msgPayload(m *cMsg) (payload []byte, subs [][]byte) {
 			h := make([]byte, 11)
 			h[0] = byte(s.Type)
 			h[1], h[2], h[3] = byte(s.Len>>16), byte(s.Len>>8), byte(s.Len)
-			ts := uint32(aggBaseTs + s.Dts)
+			ts := aggBases[m.Id%len(aggBases)] + uint32(s.Dts)
 			h[4], h[5], h[6], h[7] = byte(ts>>16), byte(ts>>8), byte(ts), byte(ts>>24)
 			sid := m.Msid
 			if s.Sid != 0 {
@@ -184,6 +186,16 @@ func (q *expQueue) check(o *cOut, p []byte) bool {
 	return bytes.Equal(l[0], p)
 }
 
+func chunkProtect(f func()) (p string) {
+	defer func() {
+		if r := recover(); r != nil {
+			p = fmt.Sprint(r)
+		}
+	}()
+	f()
+	return ""
+}
+
 func chunkW2S(sc *cScenario, tw *TraceWriter) {
 	tw.Emit(M{"ev": "reset", "sc": sc.Sc, "kind": sc.Kind, "cs": sc.Cs, "nmsgs": len(sc.Msgs)})
 	prev := map[int]*base.RtmpHeader{}
@@ -202,12 +214,20 @@ func chunkW2S(sc *cScenario, tw *TraceWriter) {
 		if m.Prev {
 			p = prev[m.Csid]
 		}
-		out := rtmp.VerifMessage2Chunks(payload, h, p, cs)
-		if p == nil && cs == rtmp.LocalChunkSize {
-			// production entry point must agree with the hook
-			if !bytes.Equal(out, rtmp.Message2Chunks(payload, h)) {
-				out = append(out, 0xEE) // make the divergence visible as leftover
+		var out []byte
+		pn := chunkProtect(func() {
+			out = rtmp.VerifMessage2Chunks(payload, h, p, cs)
+			if p == nil && cs == rtmp.LocalChunkSize {
+				// production entry point must agree with the hook
+				if !bytes.Equal(out, rtmp.Message2Chunks(payload, h)) {
+					out = append(out, 0xEE) // make the divergence visible as leftover
+				}
 			}
+		})
+		if pn != "" {
+			// lal's writer panicked on this message: an End that the specification cannot accept
+			tw.Emit(M{"ev": "End", "leftover": -1, "lalout": []cOut{}, "lalerr": "panic in Message2Chunks: " + pn})
+			return
 		}
 		spans = append(spans, span{len(wire), len(wire) + len(out), m, payload})
 		wire = append(wire, out...)
